@@ -37,6 +37,10 @@ pub enum DataKind {
     Full,
     Small,
     None,
+    /// SMALL plus several hundred generated spellings for each of a few two-letter words
+    /// ("ko", "mo", "bo", "to"): candidate lists of more than 256 entries, where the
+    /// selection byte (u8) stops covering the list (usize).
+    Big,
 }
 
 pub const ENGLISH: u16 = 1 << 0;
@@ -114,6 +118,7 @@ pub struct Paths {
     pub verif: String,
     pub data_full: String,
     pub data_small: String,
+    pub data_big: String,
     pub probhat: String,
     pub synthetic: String,
     pub header: String,
@@ -126,6 +131,7 @@ impl Paths {
         Paths {
             data_full: format!("{}/data", repo),
             data_small: format!("{}/.cache/data-small", verif),
+            data_big: format!("{}/.cache/data-big", verif),
             probhat: format!("{}/data/Probhat.json", repo),
             synthetic: format!("{}/layouts/Synthetic.json", verif),
             header: format!("{}/include/riti.h", repo),
@@ -157,6 +163,7 @@ impl CfgHandle {
             let dir = match spec.data {
                 DataKind::Full => Some(paths.data_full.clone()),
                 DataKind::Small => Some(paths.data_small.clone()),
+                DataKind::Big => Some(paths.data_big.clone()),
                 DataKind::None => None,
             };
             if let Some(dir) = dir {
